@@ -136,7 +136,12 @@ pub fn base_known(cfg: &Cfg) -> BTreeSet<String> {
 
 impl Sim {
     pub fn new(cfg: &Cfg, active: Option<String>) -> Result<Sim, String> {
-        let d = deploy(cfg)?;
+        Sim::new_staged(cfg, active, None)
+    }
+
+    /// like `new`, on a partially wired deployment (see deploy_staged)
+    pub fn new_staged(cfg: &Cfg, active: Option<String>, stage: Option<u8>) -> Result<Sim, String> {
+        let d = crate::deploy::deploy_staged(cfg, stage)?;
         let mut known = base_known(cfg);
         if let Some(tw) = &cfg.token_world {
             for (a, _) in tw.bsei_initial.iter().chain(tw.stsei_initial.iter()) {
